@@ -1288,4 +1288,29 @@ example : getValue h0 4 "rho" false = .ok (.list [none]) := rfl
 example : getValue h0 4 "nosuch" = .error .bad := rfl
 example : (alter h0 4 3).bind (fun h' => getValue h' 4 "e") = .ok (.list [some 0, some 0, some 0]) := rfl
 
+
+/-! ## every equation kind is exported -/
+
+/-- the export loop runs over ALL equation kinds the language has (transition, measurement, steady autovalues) ... -/
+theorem all_equation_kinds_exported (k : EKind) : k ∈ eexportOrder := by
+  cases k <;> simp [eexportOrder]
+
+/-- ... so NO equation is dropped: the portable has exactly as many equation records as the model has equation pairs
+(`mem_encodeEs` says which, `equations_roundtrip` that they decode to the same kind, dynamic and steady text, description) -/
+theorem encodeEs_length (es : List Equation) : (encodeEs es).length = es.length := by
+  unfold encodeEs
+  simp only [eexportOrder, List.flatMap_cons, List.flatMap_nil, List.append_nil, List.length_append, List.length_map]
+  induction es with
+  | nil => rfl
+  | cons e es ih =>
+    simp only [List.filter_cons, List.length_cons]
+    cases hk : e.kind <;> simp <;> omega
+
+/-- and every quantity kind except the two derived std kinds has a portable code (the stds are re-created: `PortableWF.split`) -/
+theorem quantity_kinds_exported (k : QKind) : k ∈ exportOrder ∨ k.isStd = true := by
+  cases k <;> simp [exportOrder, QKind.isStd]
+
+example : (encodeEs [{ kind := .autovalue, dynamic := "sx=2*x1+1", steady := "sx=2*x1+1" },
+    { kind := .transition, dynamic := "x1=r1*x1[-1]", steady := "x1=r1*x1[-1]" }]).map (·.code) = ["#T", "#A"] := by decide
+
 end IrisVerif.C20
